@@ -78,6 +78,12 @@ class KeySpec(object):
         fr = st.frames[st.stack[-1]]
         news = [v for k_, v in fr.items() if k_ not in ('args', 'kwargs') and z3.is_expr(v) and st.entails(z3.And(Val.is_ref(v), Val.addr(v) >= BASE))]
         lists = [v for v in news if ex.is_kind(st, v, 'list')]; dicts = [v for v in news if ex.is_kind(st, v, 'dict')]
+        # an accumulator that is NOT new (e.g. a mutable parameter default, shared between calls) is still the accumulator: the invariant then
+        # fails at loop entry unless it is empty, which is the point
+        olds = [v for k_, v in fr.items() if k_ not in ('args', 'kwargs', 'capture_args') and z3.is_expr(v) and v.sort() == Val and st.entails(z3.And(Val.is_ref(v), Val.addr(v) < BASE))
+                and not any(st.entails(v == w) for w in (args, kwargs))]
+        if not lists: lists = [v for v in olds if ex.is_kind(st, v, 'list') and not st.entails(v == itv)]
+        if not dicts: dicts = [v for v in olds if ex.is_kind(st, v, 'dict')]
         if len(lists) != 1 or len(dicts) != 1:
             raise Unsupported('capture loop: expected one list and one dict accumulator allocated before the loop, found %d / %d' % (len(lists), len(dicts)))
         akeys, kkeys = lists[0], dicts[0]
